@@ -50,8 +50,9 @@ static Outcome run(tape_t const& tape)
         if (!err.empty()) { out = Outcome::fail("ledger_after_wait", err); break; }
     }
     // the detector samples pool state: it must be gone before the pools are torn down
-    q.finish();
+    q.enter_stop_mode([&] { for (int i = 0; i < in.led.n; ++i) if (in.led.finished[static_cast<std::size_t>(i)].load() != 1) return false; return true; });
     if (out.kind == Outcome::PASS) stop_runtime();
+    q.finish();
     add_monitor_counters(out);
     out.counters["tasks"] = static_cast<long long>(c.prog.tasks.size());
     out.nontrivial = G().migrations.load() > 0 || G().suspends.load() > 0 || G().rebinds.load() > 0;
